@@ -89,9 +89,10 @@ class _OutOfFuel(Exception):
 
 class Result:
     """values: tuple of result values (each possibly POISON) | POISON (whole run) | OUT_OF_FUEL."""
-    __slots__ = ("values", "effects", "ub", "steps", "trips", "why")
+    __slots__ = ("values", "effects", "ub", "steps", "trips", "why", "npoison")
 
-    def __init__(self, values, effects, ub=(), steps=0, trips=(), why=""):
+    def __init__(self, values, effects, ub=(), steps=0, trips=(), why="", npoison=0):
+        self.npoison = npoison      # executed operations that produced a POISON result (used or not)
         self.values = values
         self.effects = list(effects)
         self.ub = list(ub)          # immediate-UB events ("arith.divsi by zero", ...)
@@ -711,6 +712,7 @@ class _Eval:
         self.trips = []
         self.ncalls = 0
         self.depth = 0
+        self.npoison = 0
         self.funcs = {}
         for op in _top_ops(module):
             if op.name == "func.func":
@@ -773,6 +775,8 @@ class _Eval:
                     raise UnsupportedOp(f"{name}: {len(res)} values for {len(results)} results")
                 for rv, v in zip(results, res):
                     env[rv] = v
+                    if v is POISON:
+                        self.npoison += 1
                 op = op.next_op
             if nxt is None:
                 return "fallthrough", ()
@@ -1146,11 +1150,11 @@ def run_function(module, name: str, args, index_bits: int = 64, fuel: int = 1000
     nargs = tuple(_norm_arg(v, type_name(a.type), index_bits) for v, a in zip(args, blk.args))
     try:
         vals = ev.call(fop, nargs)
-        return Result(tuple(vals), ev.effects, ev.ub, ev.steps, ev.trips)
+        return Result(tuple(vals), ev.effects, ev.ub, ev.steps, ev.trips, npoison=ev.npoison)
     except _PoisonRun as e:
-        return Result(POISON, ev.effects, ev.ub, ev.steps, ev.trips, why=str(e))
+        return Result(POISON, ev.effects, ev.ub, ev.steps, ev.trips, why=str(e), npoison=ev.npoison)
     except (_OutOfFuel, RecursionError):
-        return Result(OUT_OF_FUEL, ev.effects, ev.ub, ev.steps, ev.trips, why="fuel")
+        return Result(OUT_OF_FUEL, ev.effects, ev.ub, ev.steps, ev.trips, why="fuel", npoison=ev.npoison)
 
 
 def run_function_any_index(module, name: str, args, fuel: int = 100000) -> Result:
